@@ -1,17 +1,134 @@
-(* C04 - Decoding result is independent of how input bytes are delivered (PARTIAL as a theorem).
+(* C04 - Decoding result is independent of how input bytes are delivered.
    ONLY property theorems (closed by [exact]; statements pinned textually), Print Assumptions.
-   FULL STATEMENT (kept visible, not proved): for every byte string and any two compositions of it into non-empty pieces, the observations
-   (events other than Nothing/PartialChunk with ImageData runs merged, image bytes per completed data sequence, metadata, first error)
-   of `feed` are equal.  PROVED (every state, every inflater): the three mechanisms by which delivery can matter inside the stream machine -
-   (i) a 4-byte field (signature half, length, type, CRC, sequence number) cut after 1, 2 or 3 bytes is accumulated silently and then parsed by the
-   very same parse_u32 call on the same four bytes from the same state as when it arrives whole; (ii) a chunk body delivered as p then q leaves
-   exactly the state that p ++ q leaves (buffer append, running CRC, byte counter), silently; (iii) zero-byte transitions do not look at the
-   buffer.  NOT PROVED: the composition over whole update loops and the image-data state (which additionally needs the inflater's
-   prefix-monotonicity contract); these are decided on every run by the metamorphic check (every single cut point, byte-by-byte, random schedules)
-   on the implementation and by model-vs-implementation traces. *)
-From PngV Require Import Base.Bytes Base.Crc Gen.GenStream Model.Stream Proofs.StreamProofs Proofs.StreamSplit.
+   FULL STATEMENT, PROVED for the stream machine (C04_decoding_is_delivery_independent): for every byte string, every option set and limit, and any two
+   ways of cutting the bytes into the successive buffers handed to the streaming decoder, the driver `feed` of Model/StreamRun.v (the loop the
+   correspondence check runs against StreamingDecoder::update) yields the same observation: the same sequence of events other than
+   Nothing/ImageData (header, chunk begin/complete, metadata events, frame control, ...), the same image bytes with every ImageDataFlushed,
+   and the same end - the complete decoder state (metadata included) when the run ends at IEND or at the end of the input, the same error and the
+   same metadata when it fails.  The amount of image data handed out before a failure is not observed (as the property allows).  The only premise
+   besides bytes being bytes is the prefix-determinacy contract of the EXTERNAL inflater (fdeflate): what a prefix of a zlib stream has determined -
+   output, an error, the end of the stream - stays determined when more input follows (zinf_contract; satisfiable: C04_contract_satisfiable).
+   The proof goes through (1) the inflater wrapper (z_decompress_app), (2) one transition on p ++ q versus on p and then on q (step_ext: a 4-byte
+   field, a chunk body or compressed image data straddling the cut), (3) runs of transitions (micro_cut), (4) lists of pieces, (5) the fuelled
+   loops of update / feed, which (6) never run out of fuel (C04_driver_never_runs_dry: every transition lowers 5*|buffer| + rank).
+   STILL PARTIAL with respect to the property's other half: the Reader on top of a BufRead (rows, frames) is not part of this theorem; it is
+   decided on every run by the metamorphic check (whole vs byte-by-byte vs every single cut point vs random schedules) and has one known finding. *)
+From PngV Require Import Base.Bytes Base.Crc Gen.GenStream Model.Stream Model.StreamRun Proofs.StreamProofs Proofs.StreamSplit Proofs.StreamWhole.
 From RecordUpdate Require Import RecordSet.
 Import RecordSetNotations.
+
+(* THE PROPERTY for the streaming decoder: from a newly created decoder, any two ways of cutting the same bytes give the same observation *)
+Theorem C04_decoding_is_delivery_independent :
+  forall (zinf : bool -> list Z -> list Z * dstatus) (zall : list Z -> option (list Z))
+         (utf8_valid : list Z -> bool),
+       zinf_contract zinf ->
+       forall (o : options) (limit : Z) (ps1 ps2 : list (list Z)),
+       Forall bytes_ok ps1 ->
+       Forall bytes_ok ps2 ->
+       concat ps1 = concat ps2 ->
+       feed_obs (feed zinf zall utf8_valid (init_state o limit) ps1) =
+       feed_obs (feed zinf zall utf8_valid (init_state o limit) ps2).
+Proof. exact decoding_is_delivery_independent. Qed.
+
+(* the same from every state that satisfies the invariant (e.g. after reset, or in mid-stream), given that neither run exhausts the driver's fuel *)
+Theorem C04_delivery_independent_from_any_state :
+  forall (zinf : bool -> list Z -> list Z * dstatus) (zall : list Z -> option (list Z))
+         (utf8_valid : list Z -> bool),
+       zinf_contract zinf ->
+       forall (s : dstate) (ps1 ps2 : list (list Z)),
+       good zinf s ->
+       Forall bytes_ok ps1 ->
+       Forall bytes_ok ps2 ->
+       concat ps1 = concat ps2 ->
+       snd (feed zinf zall utf8_valid s ps1) <> RFuel ->
+       snd (feed zinf zall utf8_valid s ps2) <> RFuel ->
+       feed_obs (feed zinf zall utf8_valid s ps1) = feed_obs (feed zinf zall utf8_valid s ps2).
+Proof. exact feed_schedule_independent. Qed.
+
+(* ... which it never does: the loops of update/feed terminate within their budget for every input and every cut *)
+Theorem C04_driver_never_runs_dry :
+  forall (zinf : bool -> list Z -> list Z * dstatus) (zall : list Z -> option (list Z))
+         (utf8_valid : list Z -> bool) (s : dstate) (ps : list (list Z)),
+       good4 s -> Forall bytes_ok ps -> snd (feed zinf zall utf8_valid s ps) <> RFuel.
+Proof. exact feed_never_out_of_fuel. Qed.
+
+(* the same at the level of runs of transitions (no fuel involved) *)
+Theorem C04_runs_of_transitions :
+  forall (zinf : bool -> list Z -> list Z * dstatus) (zall : list Z -> option (list Z))
+         (utf8_valid : list Z -> bool),
+       zinf_contract zinf ->
+       forall (s : dstate) (ps1 ps2 : list (list Z)) (t1 : list (event * list Z)) 
+         (r1 : mend) (t2 : list (event * list Z)) (r2 : mend),
+       good zinf s ->
+       Forall bytes_ok ps1 ->
+       Forall bytes_ok ps2 ->
+       concat ps1 = concat ps2 ->
+       MicroPieces zinf zall utf8_valid s ps1 t1 r1 ->
+       MicroPieces zinf zall utf8_valid s ps2 t2 r2 -> obs_end r1 = obs_end r2 /\ same_obs t1 t2.
+Proof. exact pieces_independent. Qed.
+
+(* a run over p followed by a run over q is, for the observer, the run over p ++ q *)
+Theorem C04_run_over_p_then_q_is_run_over_pq :
+  forall (zinf : bool -> list Z -> list Z * dstatus) (zall : list Z -> option (list Z))
+         (utf8_valid : list Z -> bool),
+       zinf_contract zinf ->
+       forall (s : dstate) (p : list Z) (t1 : list (event * list Z)) (r1 : mend),
+       Micro zinf zall utf8_valid s p t1 r1 ->
+       good zinf s ->
+       bytes_ok p ->
+       forall q : list Z,
+       bytes_ok q ->
+       match r1 with
+       | MMore s1 =>
+           forall (t2 : list (event * list Z)) (r2 : mend),
+           Micro zinf zall utf8_valid s1 q t2 r2 ->
+           exists (t : list (event * list Z)) (r : mend),
+             Micro zinf zall utf8_valid s (p ++ q) t r /\ obs_end r = obs_end r2 /\ same_obs t (t1 ++ t2)
+       | _ =>
+           exists (t : list (event * list Z)) (r : mend),
+             Micro zinf zall utf8_valid s (p ++ q) t r /\ obs_end r = obs_end r1 /\ same_obs t t1
+       end.
+Proof. exact micro_cut. Qed.
+
+(* one transition on p ++ q is the transition on p, or - when the consumed item straddles the cut - the transitions on p and on q merged *)
+Theorem C04_transition_on_longer_buffer :
+  forall (zinf : bool -> list Z -> list Z * dstatus) (zall : list Z -> option (list Z))
+         (utf8_valid : list Z -> bool) (s : dstate) (p q : list Z),
+       zinf_contract zinf -> good zinf s -> p <> [] -> ext_spec zinf zall utf8_valid s p q.
+Proof. exact step_ext. Qed.
+
+(* the inflater wrapper: input handed over as p then d gives the state and the bytes of p ++ d, in every state of the stream (not started, running, finished, failing) *)
+Theorem C04_inflater_wrapper_any_cut :
+  forall (zinf : bool -> list Z -> list Z * dstatus) (z : zst) (p d : list Z),
+       zinf_contract zinf ->
+       zinv zinf z ->
+       match z_decompress zinf z p with
+       | Ok (z1, o1) =>
+           match z_decompress zinf z1 d with
+           | Ok (z2, o2) => z_decompress zinf z (p ++ d) = Ok (z2, o1 ++ o2)
+           | Err e => z_decompress zinf z (p ++ d) = Err e
+           | Panic k => z_decompress zinf z (p ++ d) = Panic k
+           end
+       | Err e => z_decompress zinf z (p ++ d) = Err e
+       | Panic k => z_decompress zinf z (p ++ d) = Panic k
+       end.
+Proof. exact z_decompress_app. Qed.
+
+(* the invariant (well-formed control state; the wrapper has handed out exactly what its input has determined) is kept by every transition *)
+Theorem C04_invariant_kept :
+  forall (zinf : bool -> list Z -> list Z * dstatus) (zall : list Z -> option (list Z))
+         (utf8_valid : list Z -> bool) (s : dstate) (buf : list Z) (s' : dstate) 
+         (n : nat) (e : event) (a : list Z),
+       zinf_contract zinf ->
+       good zinf s ->
+       bytes_ok buf ->
+       buf <> [] -> next_state zinf zall utf8_valid s buf = (s', Ok (n, e, a)) -> good zinf s'.
+Proof. exact good_step. Qed.
+
+(* non-vacuity: the contract is met by an inflater that shows all three outcomes (need more / done / error) *)
+Theorem C04_contract_satisfiable :
+  zinf_contract (fun _ : bool => toy_inf).
+Proof. exact zinf_contract_satisfiable. Qed.
 
 (* (i) a 4-byte field cut after k = 1, 2, 3 bytes *)
 Theorem C04_field_cut_partial :
@@ -127,6 +244,37 @@ Proof. exact zinf_monotone_satisfiable. Qed.
 (* non-vacuity: the initial state is at a field boundary *)
 Example C04_nonvacuous : st (init_state (mk_opts true false false false true) 1000) = Some (SU32 KSig1 []).
 Proof. reflexivity. Qed.
+
+(* non-vacuity of the main theorem: a concrete stream (signature, IHDR 1x1 grey, IDAT carrying a toy "zlib stream", IEND with its real CRC) cut in two
+   different ways; the common observation is not trivial (header, chunk events, flushed image bytes, end of image) *)
+Definition c04_demo_bytes : list Z :=
+  [137;80;78;71;13;10;26;10; 0;0;0;13; 73;72;68;82; 0;0;0;1; 0;0;0;1; 8;0;0;0;0; 58;126;155;85;
+   0;0;0;3; 73;68;65;84; 7;9;0; 0;0;0;0;  0;0;0;0; 73;69;78;68; 174;66;96;130].
+Definition c04_demo_opts : options := mk_opts true true false false true.
+Example C04_demo_two_cuts_agree :
+  feed_obs (feed (fun _ => toy_inf) (fun _ => None) (fun _ => true) (init_state c04_demo_opts 1000) [c04_demo_bytes]) =
+  feed_obs (feed (fun _ => toy_inf) (fun _ => None) (fun _ => true) (init_state c04_demo_opts 1000)
+                 [firstn 3 c04_demo_bytes; firstn 40 (skipn 3 c04_demo_bytes); skipn 43 c04_demo_bytes]).
+Proof.
+  apply (decoding_is_delivery_independent (fun _ => toy_inf) (fun _ => None) (fun _ => true) zinf_contract_satisfiable).
+  - repeat constructor; unfold byte_ok; lia.
+  - repeat constructor; unfold byte_ok; lia.
+  - reflexivity.
+Qed.
+Example C04_demo_observation_is_not_trivial :
+  fst (feed_obs (feed (fun _ => toy_inf) (fun _ => None) (fun _ => true) (init_state c04_demo_opts 1000) [c04_demo_bytes])) =
+  [OE (EChunkBegin 13 ct_IHDR); OE (EHeader 1 1 8 0 false); OE (EChunkComplete (be32 58 126 155 85) ct_IHDR);
+   OE (EChunkBegin 3 ct_IDAT); OE (EChunkComplete 0 ct_IDAT); OF [7; 9]; OE (EChunkBegin 0 ct_IEND); OE EImageEnd].
+Proof. vm_compute. reflexivity. Qed.
+Print Assumptions C04_decoding_is_delivery_independent.
+Print Assumptions C04_delivery_independent_from_any_state.
+Print Assumptions C04_driver_never_runs_dry.
+Print Assumptions C04_runs_of_transitions.
+Print Assumptions C04_run_over_p_then_q_is_run_over_pq.
+Print Assumptions C04_transition_on_longer_buffer.
+Print Assumptions C04_inflater_wrapper_any_cut.
+Print Assumptions C04_invariant_kept.
+Print Assumptions C04_contract_satisfiable.
 Print Assumptions C04_field_cut_partial.
 Print Assumptions C04_field_piece_is_only_accumulated.
 Print Assumptions C04_field_completion_same_parse.
